@@ -69,11 +69,11 @@ def _ident(x):
 
 
 def _tx(q):
-    return math.log if q in ('db', 'lin', 'wl', 'param') else _ident
+    return math.log if q in ('db', 'lin', 'wl', 'param', 'linear2dB') else _ident
 
 
 def _ty(q):
-    return _ident if q in ('db', 'param') else math.log
+    return _ident if q in ('db', 'param', 'linear2dB') else math.log
 
 
 def _slope(q, x0, y0, x1, y1):
@@ -104,16 +104,25 @@ def sensitivity_ok(q, x0, y0, xc, yc, xf, yf):
                             '(answer %r) gives %r' % (x0, y0, xc, yc, r_c, xf, yf, r_far))
 
 
+def _conv():
+    from pyphysim.util import conversion
+    return conversion
+
+
 def _q(o, q, arg, nw):
+    if q in ('dB2Linear', 'linear2dB'):
+        return getattr(o, q)(arg)
     return P().query_call(o, q, arg, nw)
 
 
 def _fresh(case):
+    if case['kind'] == 'conv':
+        return _conv()                      # the two dB conversions are module-level functions
     return P().build(case)[0]
 
 
 def _set_small(o, kind, flag):
-    if kind not in ('ant', 'omni'):
+    if kind not in ('ant', 'omni', 'conv'):
         o.handle_small_distances_bool = bool(flag)
 
 
@@ -130,6 +139,10 @@ def _close_query(case):
         y0, yf = float(_q(o, q, x0, nw)), float(_q(o, q, xf, nw))
     except Exception as e:
         return pre + ':exception', '%s(%r): %r' % (q, x0, e)
+    if kind == 'conv':
+        e0 = 10.0 ** (x0 / 10.0) if q == 'dB2Linear' else 10.0 * math.log10(x0)
+        if not abs(y0 - e0) <= 1e-13 * (abs(e0) if q == 'dB2Linear' else max(abs(e0), 1.0)):
+            return pre + ':value', '%s(%r) = %r, expected %r' % (q, x0, y0, e0)
     clamp_val = {'db': 0.0, 'lin': 1.0}.get(q)
     if q == 'g':
         clamp_val = float(_q(o, q, 180.0, nw))          # the floor of the sector pattern
@@ -165,7 +178,7 @@ def _close_query(case):
                 return '%s:%s:jump' % (pre, sep_class(x0, xc)), '%s(%r) = %r, %s(%r) = %r' % (q, x0, y0, q, xc, yc)
     # affine in log x: one decade further the change is ln(10) far-steps (tiny values 4e-12 / 4e-13 are as
     # different from each other as 4 and 0.4)
-    if q in ('db', 'lin', 'wl'):
+    if q in ('db', 'lin', 'wl', 'linear2dB'):
         for xd in (x0 / 10.0, x0 * 10.0):
             try:
                 yd = float(_q(o, q, xd, nw))
@@ -545,6 +558,8 @@ def _build_any(case):
     pl, ag = P()._impl()
     if case['kind'] == 'omni':
         return ag.AntGainOmni(case['ctor'][0])
+    if case['kind'] == 'conv':
+        return _conv()
     return P().build(case)[0]
 
 
@@ -555,6 +570,8 @@ def _entry_call(o, entry, arg, nw, extra=None):
             warnings.simplefilter('ignore')
             if entry in ('db', 'lin', 'wdb', 'wl', 'g'):
                 return P().query_call(o, entry, arg, nw)
+            if entry in ('dB2Linear', 'linear2dB'):
+                return getattr(o, entry)(arg)
             if entry == 'det':
                 return o._calc_deterministic_path_loss_dB(arg) if nw is None else o._calc_deterministic_path_loss_dB(arg, num_walls=nw)
             if entry == 'plot':
@@ -580,7 +597,8 @@ def _buffer(case):
     kind, entry, form = case['kind'], case['entry'], case['form']
     nw = case.get('nw')
     fills = case['fills']
-    pre = 'R16:%s:%s:%s' % (kind, entry, form)
+    pre = 'R16:%s:%s' % (kind, entry)
+    how = ' [buffer form %s, flag %s]' % (form, case.get('small', 1))
     o = _build_any(case)
     _set_small(o, kind, case.get('small', 1))
     role = case.get('role', 'refill')
@@ -627,9 +645,9 @@ def _buffer(case):
         if extra is not None and extra != esnap:
             return pre + ':extra-args-modified', 'call %d: extra_args %r became %r' % (k + 1, esnap, extra)
         if _canon(r) != _canon(rf):
-            return '%s:call%d:differs-from-fresh-object-on-a-copy' % (pre, min(k + 1, 3)), (
+            return '%s:refilled-buffer-differs-from-fresh-object-on-a-copy' % pre, (
                 'call %d of %d with the same %s object refilled in place (contents %s): %s; a fresh object on a copy '
-                'of these contents: %s' % (k + 1, len(fills), type(buf).__name__, _show(snap), _show(r), _show(rf)))
+                'of these contents: %s%s' % (k + 1, len(fills), type(buf).__name__, _show(snap), _show(r), _show(rf), how))
         if isinstance(r, np.ndarray) and isinstance(buf, np.ndarray) and r.size and np.shares_memory(r, buf):
             return pre + ':result-aliases-argument', 'call %d: the result shares memory with the argument' % (k + 1)
         for j, (r_old, c_old) in enumerate(kept):
@@ -771,7 +789,10 @@ def gen_close_cases(rng, n_random, hist_len):
                                  ('ps7', None, 'db', 2.4e4, 0), ('ps7', None, 'db', 30.0, 2), ('ps7', None, 'wdb', 77.0, 1),
                                  ('ps7', None, 'wl', 4e-12, 0), ('ps7', None, 'lin', 55.0, 3), ('oh', None, 'db', 5.0, None),
                                  ('oh', None, 'lin', 0.3 * 40, None), ('ant', [3], 'g', 30.0, None), ('ant', [6], 'g', 0.3, None),
-                                 ('ant', [3], 'g', -77.0, None)):
+                                 ('ant', [3], 'g', -77.0, None), ('conv', None, 'linear2dB', 4e-12, None),
+                                 ('conv', None, 'linear2dB', 4e-13, None), ('conv', None, 'linear2dB', 2.4e9, None),
+                                 ('conv', None, 'dB2Linear', -93.1102472958, None), ('conv', None, 'dB2Linear', 0.3, None),
+                                 ('conv', None, 'dB2Linear', -150.0, None)):
         c = {'kind': kind, 'ctor': ctor, 'hist': [], 'mode': 'query', 'query': q, 'x': x}
         if nw is not None:
             c['nw'] = nw
@@ -829,13 +850,22 @@ def gen_close_cases(rng, n_random, hist_len):
             else:
                 out.append(('large-city-switch', {'kind': 'oh', 'ctor': None, 'hist': [], 'mode': 'switch',
                                                   'hms': rng.uniform(1.0, 10.0), 'd': [g.gen_dist(rng, 0.0, 1.3)]}))
+        if i % 13 == 5:
+            if rng.chance(0.5):
+                c = {'kind': 'conv', 'ctor': None, 'hist': [], 'mode': 'query', 'query': 'linear2dB',
+                     'x': rng.choice(TINY + [1.0, 2.4e9, 37.0]) * rng.uniform(1.0, 3.0)}
+            else:
+                c = {'kind': 'conv', 'ctor': None, 'hist': [], 'mode': 'query', 'query': 'dB2Linear',
+                     'x': rng.uniform(0.1, 200.0) * rng.choice([1.0, -1.0])}
+            out.append(('query-close-values', c))
         if i % 11 == 0:
             ang = rng.uniform(3.0, 170.0) * rng.choice([1.0, -1.0])
             out.append(('query-close-values', {'kind': 'ant', 'ctor': [rng.choice([3, 6])], 'hist': [], 'mode': 'query', 'query': 'g', 'x': ang}))
     return out
 
 
-ENTRIES = {'fs': ['db', 'lin', 'wdb', 'wl', 'det', 'plot'], 'gen': ['db', 'lin', 'wdb', 'wl', 'det', 'plot'],
+ENTRIES = {'conv': ['dB2Linear', 'linear2dB'],
+           'fs': ['db', 'lin', 'wdb', 'wl', 'det', 'plot'], 'gen': ['db', 'lin', 'wdb', 'wl', 'det', 'plot'],
            'gpp': ['db', 'lin', 'wdb', 'wl', 'det', 'plot'], 'ps7': ['db', 'lin', 'wdb', 'wl', 'det', 'plot', 'dbw'],
            'oh': ['db', 'lin', 'det', 'plot'], 'ant': ['g'], 'omni': ['g']}
 FORMS = ['nd', 'nd2', 'col', '0d', 'list', 'int', 'f32', 'fortran', 'strided']
@@ -844,6 +874,10 @@ FORMS = ['nd', 'nd2', 'col', '0d', 'list', 'int', 'f32', 'fortran', 'strided']
 def _fill_values(rng, kind, entry, form, n, k, small):
     """contents of the k-th refill (whole numbers for integer buffers)"""
     g = P()
+    if entry == 'dB2Linear':
+        return [float(rng.randint(-200, 60)) if form in ('int', 'intlist') else g.nice(rng, rng.uniform(-200.0, 60.0)) for _ in range(n)]
+    if entry == 'linear2dB':
+        return [float(rng.randint(1, 10 ** 6)) if form in ('int', 'intlist') else g.logu(rng, -15.0, 9.0) for _ in range(n)]
     if entry == 'g':
         return [g.nice(rng, rng.uniform(-180.0, 180.0)) if form not in ('int',) else float(rng.randint(-180, 180)) for _ in range(n)]
     if entry == 'wdb':
@@ -866,9 +900,11 @@ def gen_buffer_cases(rng, n_random, hist_len):
     g = P()
     det = core.Rng(20160916, 'c13-r16-deterministic')
     # ---- deterministic: every entry point x every kind with the plain ndarray buffer, every buffer form on `db`
-    for kind in ('fs', 'gen', 'gpp', 'ps7', 'oh', 'ant', 'omni'):
+    for kind in ('fs', 'gen', 'gpp', 'ps7', 'oh', 'ant', 'omni', 'conv'):
         for entry in ENTRIES[kind]:
-            forms = ['nd'] if entry != 'db' and entry != 'g' else ['nd', 'nd2', '0d', 'list', 'int', 'strided']
+            forms = ['nd'] if entry not in ('db', 'g', 'dB2Linear') else ['nd', 'nd2', '0d', 'list', 'int', 'strided']
+            if entry != 'db':
+                forms = [f for f in forms if f != 'list']          # lists are documented for distances only
             for form in forms:
                 out.append(('refill', _buffer_case(det, kind, entry, form, 3, 2, None)))
     for kind, nw in (('fs', None), ('gen', None), ('gpp', None), ('ps7', 0), ('ps7', 2), ('oh', None), ('ant', None), ('omni', None)):
@@ -881,18 +917,20 @@ def gen_buffer_cases(rng, n_random, hist_len):
         out.append(('two-roles', {'kind': 'ps7', 'ctor': None, 'hist': [], 'small': 1, 'entry': 'db-walls', 'form': form,
                                   'role': 'two-roles', 'fills': [[1.0, 2.0, 3.0, 6.0, 2.0, 40.0]]}))
     # ---- random
-    kinds = ['fs', 'ps7', 'oh', 'gen', 'gpp', 'ant', 'ps7', 'fs', 'omni', 'oh']
+    kinds = ['fs', 'ps7', 'oh', 'gen', 'gpp', 'ant', 'ps7', 'fs', 'omni', 'oh', 'conv']
     for i in range(n_random):
         kind = kinds[i % len(kinds)]
         entry = rng.choice(ENTRIES[kind])
         form = rng.choice(FORMS)
+        if entry in ('wl', 'linear2dB') and form in ('f32',):
+            form = 'nd2'
         if entry in ('wl',) and form in ('int',):
             form = 'nd'
         if entry in ('plot', 'dbw') and form in ('0d', 'f32'):
             form = 'nd'
         if entry == 'dbw' and form == 'col':
             form = 'nd2'
-        if entry in ('wdb', 'wl', 'g') and form == 'list':
+        if entry in ('wdb', 'wl', 'g', 'linear2dB', 'dB2Linear') and form == 'list':
             form = 'nd'                                             # lists are documented for distances only
         if kind == 'oh' and form == 'list' and entry == 'det':
             form = 'nd'
@@ -952,7 +990,8 @@ REQUIRED = (['oracle:R15:' + b for b in ('threshold-tiny-loss', 'threshold-zero-
             + ['oracle:R16:' + b for b in ('refill', 'two-roles', 'entry:db', 'entry:lin', 'entry:wdb', 'entry:wl', 'entry:g',
                                            'entry:det', 'entry:plot', 'entry:db+walls', 'form:nd', 'form:nd2', 'form:0d',
                                            'form:list', 'form:int', 'form:strided', 'kind:fs', 'kind:gen', 'kind:gpp',
-                                           'kind:ps7', 'kind:oh', 'kind:ant', 'kind:omni')])
+                                           'kind:ps7', 'kind:oh', 'kind:ant', 'kind:omni', 'kind:conv', 'entry:dB2Linear',
+                                           'entry:linear2dB')])
 
 
 def run(ctx, n_close, n_buffer, hist_len):
